@@ -56,6 +56,30 @@ func rulesC10(c *Ctx) {
 			})
 		}
 		c.Pin("stores to stream.w", n, 4)
+		// a resumed stream is bound to the exchange only on the path that hands it to the caller (who releases it when the
+		// exchange ends): a failed replay that leaves s.w set routes every later message to an exchange that is over
+		acq := c.Fn(pM, "streamableServerConn", "acquireStream")
+		ag := acq.Graph()
+		na := 0
+		for _, w := range Writes(acq.Body, false) {
+			if !acq.IsField(w.LHS, wF) || w.RHS == nil || isNilIdent(w.RHS) {
+				continue
+			}
+			na++
+			seen, _ := ag.reach([]int{ag.VertexOf(w.Stmt)}, nil, nil)
+			okH := true
+			for _, x := range ag.Exits {
+				if !seen[x] {
+					continue
+				}
+				r, isR := ag.Node(x).(*ast.ReturnStmt)
+				if !isR || len(r.Results) == 0 || isNilIdent(r.Results[0]) {
+					okH = false
+				}
+			}
+			c.Check(okH, "acquireStream:attached-only-when-handed-over", acq, w.Stmt, "after s.w is set every return hands the stream to the caller (no `return nil, nil` with the writer still attached)")
+		}
+		c.Pin("acquireStream attachments", na, 1)
 	})
 
 	c.Rule("R-C10-2", "routing: a response goes to the stream registered for its id; other messages to the stream of the request found in the handler context, else to the listen/standalone stream; an unknown stream is an error, never another request's stream", func() {
